@@ -18,6 +18,7 @@ namespace {
 
 struct Cover {
     uint64_t files = 0, bytesWritten = 0, bytesRead = 0, writeCalls = 0, appends = 0, truncations = 0, seeks = 0, sizeCalls = 0, readCalls = 0;
+    uint64_t reopens = 0;
     uint64_t errorProbes = 0, emptyFiles = 0, withNul = 0, withFF = 0, withCRLF = 0, large = 0, nontrivialCases = 0;
     std::map<std::string, uint64_t> modes, classes;
     std::vector<uint64_t> fps;
@@ -272,6 +273,21 @@ void runCase(uint64_t c, rt::Rng rng, const std::string &dir, long maxLen) {
         f.open(Path(other), File::Mode::Read);
         if (f.readStr() != "xyz") fail("wrong-bytes", "reopen", "re-opened File reads the wrong file");
     }
+    // one File object used for several sessions on the SAME path, without close() and without flush in between:
+    // open() has to finish the old stream before the new one truncates or appends
+    if (!gCaseFailed && rng.chance(200)) {
+        std::string a = data.substr(0, std::min<size_t>(data.size(), 1 + rng.below(3000))), b = content(rng, rng.below(40), cls);
+        std::string p2 = dir + "/reopen.bin";
+        fs::remove(p2);
+        File f(p2, File::Mode::Write);
+        f.write(a);
+        bool append = rng.chance(400);
+        f.open(Path(p2), append ? File::Mode::Append : File::Mode::Write);
+        f.write(b);
+        f.close();
+        verifyOnDisk(p2, append ? a + b : b, append ? "reopen-append" : "reopen-write");
+        ++C.reopens;
+    }
     ++C.files;
     if (len > 0) {
         ++C.nontrivialCases;
@@ -300,7 +316,7 @@ int main(int argc, char **argv) {
     rt::dumpFingerprints(C.fps);
     rt::finish(rt::Json().kv("engine", "h_file").kv("files", C.files).kv("bytesWritten", C.bytesWritten).kv("bytesRead", C.bytesRead)
                    .kv("writeCalls", C.writeCalls).kv("appendSessions", C.appends).kv("truncations", C.truncations).kv("seeks", C.seeks)
-                   .kv("sizeCalls", C.sizeCalls).kv("readCalls", C.readCalls).kv("errorProbes", C.errorProbes).kv("emptyFiles", C.emptyFiles)
+                   .kv("sizeCalls", C.sizeCalls).kv("readCalls", C.readCalls).kv("errorProbes", C.errorProbes).kv("reopenedOnSamePath", C.reopens).kv("emptyFiles", C.emptyFiles)
                    .kv("filesWithNul", C.withNul).kv("filesWith0xFF", C.withFF).kv("filesWithCRLF", C.withCRLF).kv("filesOver1MB", C.large)
                    .kv("nontrivialCases", C.nontrivialCases).raw("contentClasses", rt::jsonCounts(C.classes)).raw("modes", rt::jsonCounts(C.modes))
                    .raw("samples", rt::jsonArray(C.samples, false)));
